@@ -3,8 +3,8 @@ CONSTANTS
   UseStaticCfg = TRUE
   StaticCfg <- DefaultCfg
   Dev = {"RefundTruncatedDust"}
-  Family = "valset"
-  MaxLen = 5
+  Family = "registry"
+  MaxLen = 3
   Amts = {10}
   Fees = {0}
   Users = {"a1"}
@@ -17,17 +17,17 @@ CONSTANTS
   MaxBlocks = 3
   Orchs = {"o1", "o2"}
   Exts = {"e1", "e2"}
-  KeyChains = {"ethereum"}
-  KeyVariants = {"good", "wrongkey"}
+  KeyChains = {"bsc", "ethereum", "minter"}
+  KeyVariants = {"good"}
   DepAmts = {40}
-  DepFees = {0, 2}
+  DepFees = {0}
   WithKeysAndPrices = FALSE
   FeePaids = {1}
-  StakePowers = {0, 1, 2, 3}
+  StakePowers = {1}
   WatchNames = {}
-  KeepHist = FALSE
+  KeepHist = TRUE
   TwoLevel = FALSE
-  EmitScripts = FALSE
-VIEW View
+  EmitScripts = TRUE
+CONSTRAINT Emit
 INVARIANT NoStepViolation
 CHECK_DEADLOCK FALSE
